@@ -190,3 +190,54 @@ func verif_C20_serve() {
 	verifObserve("c20s", n, firstPerm, ntemp, useShutdown, ctxExpired, err == nil, stopErr == nil, lg.lines)
 	verifAssert(verifGoroutinesAlive() == 0, "C20.no-goroutine-left")
 }
+
+// verif_C20_races: the command loop, the delivery goroutine of a chunked
+// transfer and Server.Close on one connection, under the happens-before
+// monitor. Scenario 0: Server.Close fires while a chunked transfer is open;
+// 1: the transfer is abandoned with RSET and a second message is sent (the
+// first delivery overlaps the next transaction); 2: Server.Close fires
+// during plain command processing.
+func verif_C20_races() {
+	verifPreemptBound(verifBound(1, 2))
+	verifSchedForkBound(verifBound(3, 5))
+	scenario := verifChoice(3)
+	be := &vbackend{}
+	be.dataFn = func(_ *vsession, r io.Reader) error {
+		_, e := verifReadAll(r, 4)
+		if e == io.EOF {
+			return nil
+		}
+		return e
+	}
+	s, _ := verifServer(be)
+	var in string
+	switch scenario {
+	case 0:
+		in = "EHLO c\r\nMAIL FROM:<a@v>\r\nRCPT TO:<b@v>\r\nBDAT 2\r\nabNOOP\r\nRCPT TO:<c@v>\r\n"
+	case 1:
+		in = "EHLO c\r\nMAIL FROM:<a@v>\r\nRCPT TO:<b@v>\r\nBDAT 2\r\nabRSET\r\nMAIL FROM:<a2@v>\r\nRCPT TO:<b2@v>\r\nBDAT 2 LAST\r\nxy"
+	case 2:
+		in = "EHLO c\r\nMAIL FROM:<a@v>\r\nRCPT TO:<b@v>\r\nDATA\r\nx\r\n.\r\nEHLO d\r\nNOOP\r\n"
+	}
+	vc := &vconn{in: []byte(in), final: io.EOF}
+	if scenario != 1 {
+		vc.hold = make(chan struct{})
+	}
+	c := newConn(vc, s)
+	verifHB(true)
+	done := make(chan struct{})
+	go func() {
+		s.handleConn(c)
+		close(done)
+	}()
+	if scenario != 1 {
+		go func() {
+			s.Close()
+		}()
+	}
+	<-done
+	verifSettle()
+	verifObserve("c20r", scenario)
+	verifAssert(verifGoroutinesAlive() == 0, "C20.races-no-goroutine-left")
+	verifReach("C20.races-end")
+}
